@@ -34,6 +34,67 @@ def gen_cases(ctx, count, gammas):
     return out
 
 
+def _mant_bits(x):
+    n = abs(x.numerator)
+    if n == 0:
+        return 0
+    while n % 2 == 0:
+        n //= 2
+    return n.bit_length()
+
+
+def _exact_everywhere(spec, vec, g, budget=50):
+    import itertools
+    for s in range(spec["nS"]):
+        for a in range(spec["nA"]):
+            inner = [F(spec["rew"][s][a][e]) + g * vec[spec["nxt"][s][a][e]] for e in range(spec["nE"])]
+            terms = [F(spec["prb"][s][a][e]) * inner[e] for e in range(spec["nE"])]
+            gv = [g * vec[spec["nxt"][s][a][e]] for e in range(spec["nE"])]
+            subs = [sum(c, F(0)) for k in range(2, len(terms) + 1) for c in itertools.combinations(terms, k)]
+            if any(_mant_bits(x) > budget or x.denominator & (x.denominator - 1) for x in inner + terms + gv + subs):
+                return False
+    return True
+
+
+def gen_rare_events(ctx, count, gammas):
+    """an event of probability 2^-28 or 2^-30 (far below any 'close to zero' tolerance) whose reward, or whose successor's value,
+    is large enough for its term to matter: the expectation uses the problem's probabilities, however small"""
+    out = []
+    tries = 0
+    while len(out) < count and tries < count * 40:
+        tries += 1
+        sub = ctx.rng.randrange(10 ** 9)
+        rng = random.Random(sub)
+        spec = mdpgen.gen_mdp(rng, family="tab", nS=rng.randint(2, 5), nA=rng.randint(2, 3), nE=rng.randint(2, 3), denom=2, rscale=0, rmax=2, init="zero")
+        g = rng.choice([x for x in gammas if x > 0] or gammas)
+        V = [F(rng.randint(-4, 4)) for _ in range(spec["nS"])]
+        tiny = F(1, 2 ** rng.choice([28, 30]))
+        s, a = rng.randrange(spec["nS"]), rng.randrange(spec["nA"])
+        pr = [F(x) for x in spec["prb"][s][a]]
+        big = max(range(len(pr)), key=lambda e: pr[e])
+        e = rng.choice([x for x in range(len(pr)) if x != big])
+        pr[big] += pr[e] - tiny
+        pr[e] = tiny
+        if pr[big] <= 0:
+            continue
+        spec["prb"][s][a] = [str(x) for x in pr]
+        sign = rng.choice([1, -1])
+        if rng.random() < 0.6:
+            spec["rew"][s][a][e] = str(sign * 8 / tiny)                 # the rare event's own reward: contributes +-8
+        else:
+            V[spec["nxt"][s][a][e]] = sign * 8 / tiny   # or its successor's value
+        ref = mdpgen.Ref(spec)
+        tv = ref.sweep(V, g)
+        # exactness in binary64, term by term (the general budget adds the largest magnitude to the finest denominator of ANY term,
+        # which is far too pessimistic here: 2^33-sized terms are only ever multiplied by the one-bit factor 2^-30): every
+        # r + gamma v', every p (r + gamma v') and every partial sum of those products in any order needs at most 50 bits
+        if not all(_exact_everywhere(spec, vec, g) for vec in (V, tv)):
+            continue
+        # the rare term must DECIDE something: dropping it changes an action value of s by about 8
+        out.append({"seed": sub, "spec": spec, "g": str(g), "g0": str(g), "V": [str(x) for x in V], "mb": solverun.pick_mb(rng, spec["nS"]), "bits": ref.max_bits, "rare": True})
+    return out
+
+
 def gen_single_precision(ctx, count):
     """jax_double_precision=False in a process where 64-bit mode was never enabled: value vectors with a LARGE common level and
     small gaps between action values (1024 + j/64: 16 bits, exact in float32 through one backup at gamma = 1/2)"""
@@ -127,7 +188,7 @@ def coq_item(c, r, k, devices):
 def run(ctx, build, gammas=None, devices_list=None):
     gammas = gammas or [F(1, 4), F(1, 2), F(3, 4), F(1), F(0)]
     count = 80 if ctx.tier == "quick" else 1500
-    cs = gen_cases(ctx, count, gammas) + gen_single_precision(ctx, 6 if ctx.tier == "quick" else 60)
+    cs = gen_cases(ctx, count, gammas) + gen_rare_events(ctx, 8 if ctx.tier == "quick" else 80, gammas) + gen_single_precision(ctx, 6 if ctx.tier == "quick" else 60)
     devices_list = devices_list or ([1, 2] if ctx.tier == "quick" else [1, 2, 3])
     corr, viols = [], []
     total = 0
